@@ -45,6 +45,8 @@ class Source:
         self.yields = False         # the random source is a system call: a switching point
 
     def _bytes(self, n):
+        if self.mode[0] == 'fail':
+            raise self.mode[1]('the entropy source is not available (scripted)')
         if self.yields:
             from vk import sched as vsched
             vsched.vsleep(2.0 ** -11)   # other requests' threads run while this one waits
@@ -291,6 +293,30 @@ def check_step(which, c, r, ctx=None):
         ctx.case(rep, True, ['step', 'step-at-wrap' if c == PERIOD - 1 else 'step-inside'])
 
 
+def check_failing_source(which, c, exc_name, ctx=None):
+    """When the operating system's random source fails, no id is issued: an id that comes out
+    anyway cannot embed 96 bits of it."""
+    stt = setup()
+    server, src = stt['servers'][which], stt['src']
+    rep = {'server': which, 'failing_source': exc_name, 'start': c}
+    exc = {'OSError': OSError, 'NotImplementedError': NotImplementedError}[exc_name]
+    server.sequence_number = c & 0xffffff
+    src.mode = ('fail', exc)
+    src.flip = None
+    try:
+        try:
+            x = server.generate_id()
+        except (OSError, NotImplementedError):
+            x = None
+    finally:
+        src.mode = ('const', b'\x00' * 64)
+    if x is not None:
+        raise V('id-without-os-entropy', exc_name,
+                'the random source raised %s, yet the id %r was issued' % (exc_name, x), rep)
+    if ctx:
+        ctx.case(rep, True, ['random-source-fails'])
+
+
 def check_window(which, start, n, r, ctx=None, bucket=None, nbuckets=1, shutdown_at=None):
     """n consecutive issues from counter `start` under constant source r: pairwise distinct -
     also when the application calls shutdown() (which stops background tasks, nothing else) in
@@ -350,6 +376,13 @@ def run_shard(ctx):
     run_given(ctx, st.tuples(st.integers(0, 1), st.integers(0, PERIOD - 1), src_bytes),
               lambda c: check_step(c[0], c[1], c[2], ctx), max_examples=60 if quick else 1000)
     run_given(ctx, open_case, lambda c: check_opens(c, ctx), max_examples=40 if quick else 600)
+    for which in (0, 1):
+        for exc_name in ('OSError', 'NotImplementedError'):
+            try:
+                check_failing_source(which, 17 + ctx.shard, exc_name, ctx)
+            except Violation as v:
+                if not ctx.is_known(v) and v.signature not in ctx.ignored:
+                    ctx.add_violation(v)
     # consecutive windows, several starts, both servers
     wins = [(0, 0), (0, PERIOD - 2048), (1, PERIOD - 1), (1, 65000), (0, PERIOD // 2 - 100)]
     n = 4096 if quick else 65536
@@ -383,6 +416,8 @@ def replay(case, ctx):
                             'slow_source': oc.get('slow_source', False),
                             'source': bytes.fromhex(oc['source']),
                             'opens': [tuple(o) for o in oc['opens']]})
+    if 'failing_source' in case:
+        return check_failing_source(case['server'], case['start'], case['failing_source'])
     if 'step_from' in case:
         return check_step(case['server'], case['step_from'], bytes.fromhex(case['source']))
     if 'window_start' in case:
